@@ -138,6 +138,8 @@ def deviations():
             devs.append((f"{s}.state", f"{s}:{st}", lambda c, s=s, st=st: c["sources"][s].__setitem__("state", st)))
         # a file name that holds shell-wildcard characters (a browser's duplicate download): it names exactly that file
         devs.append((f"{s}.fname", f"{s}:file-name-with-brackets", lambda c, s=s: c["sources"][s].__setitem__("fname", f"{s.lower()}[1].csv")))
+        # a `type:` key left over from before the source got its format string: the format string decides how the file is read
+        devs.append((f"{s}.type", f"{s}:leftover-type", lambda c, s=s: c["sources"][s].__setitem__("type", "amex" if s == "Card" else "csv")))
         devs.append((f"{s}.name", f"{s}:renamed", lambda c, s=s: c["sources"][s].__setitem__("name", "Card" if s == "Bank" else "Visa")))
     for r in ("csv", "none", "nowhere"):
         devs.append(("rules", f"rules:{r}", lambda c, r=r: c.__setitem__("rules", r)))
@@ -221,6 +223,8 @@ def source_yaml(key, sc):
         lines.append('    decimal_separator: ","')
     if sc["sign"] == "override":
         lines.append("    negate_amount: true")
+    if sc.get("type"):
+        lines.append(f"    type: {sc['type']}")
     return "\n".join(lines)
 
 
